@@ -20,6 +20,7 @@ import (
 	abci "github.com/cometbft/cometbft/abci/types"
 	cmtproto "github.com/cometbft/cometbft/proto/tendermint/types"
 
+	coreheader "cosmossdk.io/core/header"
 	errorsmod "cosmossdk.io/errors"
 	storetypes "cosmossdk.io/store/types"
 
@@ -94,7 +95,8 @@ func NewWorld() *World {
 	root := app.BaseApp.NewUncachedContext(false, hdr).
 		WithBlockGasMeter(storetypes.NewInfiniteGasMeter()).
 		WithGasMeter(storetypes.NewInfiniteGasMeter()).
-		WithEventManager(sdk.NewEventManager())
+		WithEventManager(sdk.NewEventManager()).
+		WithHeaderInfo(coreheader.Info{ChainID: hdr.ChainID, Height: hdr.Height, Time: hdr.Time})
 	return &World{ID: int(n), App: app, Home: home, Root: root}
 }
 
@@ -246,7 +248,10 @@ func (w *World) BeginBlock(ctx sdk.Context, dh int64, dt time.Duration) (next sd
 	h.Height += dh
 	h.Time = h.Time.Add(dt)
 	em := sdk.NewEventManager()
-	next = ctx.WithBlockHeader(h)
+	// a deterministic, height-dependent block hash so that the rolling seed rotates as on a real chain
+	hh := sha256.Sum256([]byte(fmt.Sprintf("verif-block-%d", h.Height)))
+	next = ctx.WithBlockHeader(h).WithHeaderHash(hh[:]).
+		WithHeaderInfo(coreheader.Info{ChainID: h.ChainID, Height: h.Height, Time: h.Time, Hash: hh[:]})
 	c := next.WithEventManager(em).WithGasMeter(storetypes.NewInfiniteGasMeter())
 	func() {
 		defer func() {
